@@ -202,3 +202,13 @@ package ast
 //@   ensures (self != nil && old(self.size) == 0) ==> self.size == 0
 //@   ensures self != nil ==> (forall j int :: (0 <= j && j < self.size) ==> same(lpAt(self, j), old(lpAt(self, j))))
 //@   ensures self != nil ==> (lpWF(self) && lpIndexed(self))
+
+// SyntaxError.description (C07: error formatting never panics): the excerpt window is
+// inside Src for every position the parsers can report, i.e. up to 16 bytes past the end
+// (the native scanners may leave the cursor a few bytes beyond the input on EOF).  A
+// hand-made SyntaxError with Pos > len(Src)+16 and a Src of at most 32 bytes would slice
+// out of range; the decoder's twin (errors.calcBounds) guards this, this one relies on
+// its callers.
+//@ func (SyntaxError).Message assumed "error text lookup (ParsingError.Message: table lookup with fmt fallback)"
+//@ func (SyntaxError).description props C07
+//@   requires -4611686018427387904 <= self.Pos && self.Pos <= len(self.Src) + 16
